@@ -326,3 +326,76 @@ func truncate(s string, n int) string {
 	}
 	return s
 }
+
+
+// replayStored re-runs a stored counterexample (./check --replay <file>) on the native build of the
+// current tree: exit 1 and a VIOLATION line if it still reproduces, exit 0 otherwise.
+func replayStored(path string) int {
+	if abs, e := filepath.Abs(path); e == nil {
+		path = abs
+	}
+	b, err := os.ReadFile(path)
+	if err != nil {
+		fmt.Fprintln(os.Stderr, "gosym:", err)
+		return 2
+	}
+	var rec struct {
+		Property  string `json:"property"`
+		Harness   string `json:"harness"`
+		Tier      string `json:"tier"`
+		Assertion string `json:"assertion"`
+	}
+	if err := json.Unmarshal(b, &rec); err != nil {
+		fmt.Fprintln(os.Stderr, "gosym:", err)
+		return 2
+	}
+	*flagProp = rec.Property
+	files, specs, err := collect(rec.Property)
+	if err != nil {
+		fmt.Fprintln(os.Stderr, "gosym:", err)
+		return 2
+	}
+	scratch, _ := os.MkdirTemp("", "gosym-gen-")
+	defer os.RemoveAll(scratch)
+	if err := addPipeline(files, scratch); err != nil {
+		fmt.Fprintln(os.Stderr, "gosym:", err)
+		return 2
+	}
+	var hs *harnessSpec
+	for i := range specs {
+		if specs[i].Name == rec.Harness {
+			hs = &specs[i]
+		}
+	}
+	if hs == nil {
+		fmt.Fprintf(os.Stderr, "gosym: harness %s not found for %s\n", rec.Harness, rec.Property)
+		return 2
+	}
+	rp := newReplayer(files)
+	defer rp.cleanup()
+	env := []string{"VERIF_REPLAY=" + path}
+	limit := 60 * time.Second
+	if hs.Opts["race"] == "true" {
+		env = append(env, "VERIF_RACE=1")
+		limit = 240 * time.Second
+	}
+	out, timedOut := rp.runNative(*hs, env, limit)
+	fmt.Println(out)
+	reproduced := false
+	switch {
+	case strings.Contains(rec.Assertion, "no-shared-write") || strings.Contains(rec.Assertion, "no-state-kept"):
+		reproduced = strings.Contains(out, "DATA RACE") || strings.Contains(out, "concurrent-equals-sequential")
+	case rec.Assertion == "uncaught-panic":
+		reproduced = strings.Contains(out, "outcome=panicked")
+	case rec.Assertion == "budget":
+		reproduced = timedOut || strings.Contains(out, "stack overflow") || strings.Contains(out, "goroutine stack exceeds")
+	default:
+		reproduced = strings.Contains(out, fmt.Sprintf("VERIF-ASSERT-FAILED harness=%s id=%s\n", hs.Name, rec.Assertion))
+	}
+	if reproduced {
+		fmt.Printf("VIOLATION property=%s replay=%s\n", rec.Property, path)
+		return 1
+	}
+	fmt.Printf("NOT-REPRODUCED property=%s assertion=%s (the stored counterexample does not fail on the current tree)\n", rec.Property, rec.Assertion)
+	return 0
+}
